@@ -708,8 +708,43 @@ class NumpyProxy(object):
         return getattr(object.__getattribute__(self, '_real'), n)
 
 
+def _det(m):
+    """numpy.linalg.det of a symbolic 2x2 / 3x3 matrix: its exact-arithmetic meaning (cofactor expansion)"""
+    if _is_sym(m):
+        m = np.asarray(m, dtype=object)
+        if m.shape == (2, 2):
+            return m[0, 0] * m[1, 1] - m[0, 1] * m[1, 0]
+        if m.shape == (3, 3):
+            return (m[0, 0] * (m[1, 1] * m[2, 2] - m[1, 2] * m[2, 1])
+                    - m[0, 1] * (m[1, 0] * m[2, 2] - m[1, 2] * m[2, 0])
+                    + m[0, 2] * (m[1, 0] * m[2, 1] - m[1, 1] * m[2, 0]))
+        raise TraceError('det: unsupported shape %r' % (m.shape,))
+    return np.linalg.det(m)
+
+
+def _inv(m):
+    """numpy.linalg.inv of a symbolic 2x2 / 3x3 matrix: adjugate / determinant"""
+    if _is_sym(m):
+        m = np.asarray(m, dtype=object)
+        d = _det(m)
+        n = m.shape[0]
+        out = np.empty((n, n), dtype=object)
+        if n == 2:
+            out[0, 0], out[0, 1], out[1, 0], out[1, 1] = m[1, 1] / d, -m[0, 1] / d, -m[1, 0] / d, m[0, 0] / d
+            return out
+        for i in range(3):
+            for j in range(3):
+                # cofactor of entry (j, i): cyclic index form, sign included
+                a, b, c, e = (j + 1) % 3, (j + 2) % 3, (i + 1) % 3, (i + 2) % 3
+                out[i, j] = (m[a, c] * m[b, e] - m[a, e] * m[b, c]) / d
+        return out
+    return np.linalg.inv(m)
+
+
 class _Linalg(object):
     norm = staticmethod(_norm)
+    det = staticmethod(_det)
+    inv = staticmethod(_inv)
 
     def __getattr__(self, n):
         return getattr(np.linalg, n)
